@@ -134,7 +134,7 @@ def canon(line, out):
 
 
 def oracle(case, impl):
-    bad = []
+    bad = list(real_oracle(case, impl))
     layout, local, local_dc = {}, None, None
     for line, out in zip(case, impl):
         t = line.split()
@@ -162,7 +162,7 @@ def oracle(case, impl):
     return bad
 
 
-def oracle(case, impl):
+def real_oracle(case, impl):
     # a cluster that did not form (no membership within the deadline) is inconclusive, not a violation: counted in the statistics
     return ['%s: %s' % (l, o) for l, o in zip(case, impl) if l.startswith('realnodes') and o.startswith('real BAD')]
 
